@@ -7,6 +7,7 @@ import (
 	"filippo.io/edwards25519"
 	"filippo.io/edwards25519/field"
 	"verifharness/gen"
+	"verifharness/raw"
 	"verifharness/ref"
 )
 
@@ -128,6 +129,13 @@ func C13(c *Ctx) {
 		recv := new(edwards25519.Point)
 		if r.Bool() {
 			recv = edwards25519.NewGeneratorPoint()
+			if r.Bool() {
+				recv.Add(recv, recv) // a receiver in general projective form
+			}
+		}
+		var recvBefore [160]byte
+		if raw.PointOK() {
+			recvBefore = raw.PointBytes(recv)
 		}
 		var p *edwards25519.Point
 		var err error
@@ -153,6 +161,9 @@ func C13(c *Ctx) {
 			c.Tally("rejected")
 			if p != nil {
 				c.Fail("error with non-nil point", det)
+			}
+			if raw.PointOK() && raw.PointBytes(recv) != recvBefore {
+				c.Fail("rejected coordinates changed the receiver", det)
 			}
 			continue
 		}
